@@ -168,6 +168,26 @@ def run(ctx):
             rev_ok = "Rev<" in ty or any(norm_fn(c).endswith("::rev") for c in pv.callees())
     ctx.ob("R11-rollback", "undo_succ|SuccUndo list walked in reverse", rev_ok, us.rec["sp"], "iterates op_pos.iter().rev()" if rev_ok else
            "the recorded successor insertions are undone in the order they were made: later entries shift the sub positions of earlier ones, so the wrong rows are removed")
+    # undo_op replays what the forward path recorded: each step depends only on its own record (op.undo, op.obj_info(), op.reset_range)
+    ub = ctx.body(OS + "::undo_op")
+    steps = [(bi, t) for bi, t in ub.calls() if callee(t) in (OS + "::undo_succ", OS + "::reset_top", COLS + "::remove_ops")]
+    ctx.floor("replay steps in undo_op", len(steps), 3)
+    own = {"undo_succ": (".undo",), "reset_top": (".reset_range",), "remove_ops": ()}
+    for k, (bi, t) in util.ordinal_keys(steps, lambda it: "undo_op|%s" % callee(it[1]).split("::")[-1]):
+        name = callee(t).split("::")[-1]
+        bad = []
+        for sb, sw in control_switches(ub, bi):
+            src = ub.bool_operand_source(sw["op"])
+            flds = set()
+            if src and src["kind"] in ("discr", "place"):
+                flds = {e for e in src["origin"][1] if e.startswith(".")}
+            elif src and src["kind"] == "call":
+                pv = ub.provenance(src["t"]["args"][0], through_calls=True) if src["t"].get("args") else None
+                flds = {e for _, pr in (pv.places if pv else ()) for e in pr if e.startswith(".")}
+            if not (flds and flds <= set(own[name])):
+                bad.append(util.where(ub, sb))
+        ctx.ob("R11-rollback", k + "|depends only on its own record", not bad, t["sp"], "controlled by %s only" % (own[name] or "nothing",) if not bad else
+               "this undo step is skipped under a condition other than its own record (%s): a recorded %s is not replayed on rollback" % (bad, name))
     rem = [(bi, t) for bi, t in rb.calls() if callee(t) == AM + "::remove_actor"]
     ctx.floor("remove_actor calls in rollback", len(rem), 1)
     from .. import rules
